@@ -4,13 +4,16 @@ Correspondence: parsers.evidence.parse_evidence_files (real code, called as pick
 calls it: evidence files, list of peptide->protein maps, method_config.score_type, suppress flag) on
 files rendered from an abstract row list, vs PgFdr.C10.ingestFiles (Lean model) on the same rows.
 
-A case is one file set for one shipped (non-razor) method:
+A case is one file set for one shipped method (all 27 TOMLs; a razor method -- sharedPeptides = "razor" -- ingests like
+the others except that the MaxQuant parser reads `Leading razor protein` instead of `Leading proteins`):
   {"method": <toml name>, "mokapot": bool, "colseed": int,
    "maps":  [[[peptide, [protein...]], ...], ...]      digest maps (1 or one per file; [] = not remapping)
    "files": [[row, ...], ...]}
   row = {"pep": cell of the peptide column exactly as written, "mod": FragPipe `Modified Peptide` cell,
-         "score": [num, den] of the double in the PEP column *before* the format's transform | "nan",
-         "prot": protein cells (see Model/C10.lean RawRow), "decoy": DIA-NN Decoy flag,
+         "score": the PEP cell: [num, den] of the double *before* the format's transform | "nan" (the literal `nan`) |
+                  "empty" (the empty cell) | "inf" | "-inf" | "junk:<text>" (text float() rejects, written as it is),
+         "prot": protein cells (see Model/C10.lean RawRow; MaxQuant: [Leading proteins, Leading razor protein]),
+         "decoy": DIA-NN Decoy flag,
          "bare": the intended stripped peptide (generator's bookkeeping for the oracle; None = malformed)}
 
 Two further kinds of case exercise the glue AROUND parse_evidence_files (how the list of maps is built and
@@ -66,11 +69,14 @@ SAGE_X = [0, -1, -2, -3, -4, -6, -7, -8]
 EPS16 = Fraction(1e-16)
 
 RUN_SHARE = 0.06  # share of the generated cases that are in-process runs of the entry point
-SCORE_CLASSES = None  # filled lazily: {scoreType: [method names]} for the non-razor shipped methods
+SCORE_CLASSES = None  # filled lazily: {score description: [method names]} for ALL shipped methods
+JUNK = ["abc", "0,01", "1e", "0.1.2", "-"]  # texts float() rejects and pandas leaves as text (not its NA spellings such as `n/a`)
 
 
-def shipped_nonrazor():
-    """{scoreType: sorted method names} read from the TOML files of the tree under test"""
+def shipped_classes():
+    """{score description: sorted method names} read from the TOML files of the tree under test; the description is
+    what methods.parse_method_toml hands to ProteinScoringStrategy: scoreType, + " razor" for sharedPeptides = "razor"
+    (so `"razor" in description` is the tool's use_razor).  All 27 shipped methods."""
     global SCORE_CLASSES
     if SCORE_CLASSES is None:
         try:
@@ -87,11 +93,14 @@ def shipped_nonrazor():
         out = {}
         for p in sorted((lib.REPO / "picked_group_fdr" / "methods").glob("*.toml")):
             d = load(p)
-            if d.get("sharedPeptides") == "razor":
-                continue
-            out.setdefault(d.get("scoreType", ""), []).append(p.stem)
+            desc = d.get("scoreType", "") + (" razor" if d.get("sharedPeptides") == "razor" else "")
+            out.setdefault(desc, []).append(p.stem)
         SCORE_CLASSES = dict(sorted(out.items()))
     return SCORE_CLASSES
+
+
+def is_razor(score_type):
+    return "razor" in score_type
 
 
 def fmt_of(score_type, mokapot):
@@ -109,7 +118,7 @@ def fmt_of(score_type, mokapot):
 
 
 def method_score_type(name):
-    for st, names in shipped_nonrazor().items():
+    for st, names in shipped_classes().items():
         if name in names:
             return st
     raise KeyError(name)
@@ -125,7 +134,17 @@ def fl(r):
 # rendering the abstract rows as files
 # ------------------------------------------------------------------------------------------
 def _cell(score):
-    return "nan" if score == "nan" else repr(fl(score))
+    """text of the PEP cell"""
+    if isinstance(score, str):
+        if score.startswith("junk:"):
+            return score[5:]
+        return {"nan": "nan", "empty": "", "inf": "inf", "-inf": "-inf"}[score]
+    return repr(fl(score))
+
+
+def _razor_cell(r):
+    """MaxQuant `Leading razor protein` cell: prot[1]; rows of older replays carry the leading proteins only"""
+    return r["prot"][1] if len(r["prot"]) > 1 else r["prot"][0].split(";")[0]
 
 
 def _shuffled(header, rows, seed, keep_last=False):
@@ -174,7 +193,7 @@ def render(case, d):
         if fmt == "maxquant":
             hdr = ["Modified sequence", "Leading proteins", "Leading razor protein", "PEP", "Score", "Experiment", "id"]
             out = [
-                [r["pep"], r["prot"][0], r["prot"][0].split(";")[0], "" if r["score"] == "nan" else _cell(r["score"]), "10", "E1", str(i)]
+                [r["pep"], r["prot"][0], _razor_cell(r), _cell(r["score"]), "10", "E1", str(i)]
                 for i, r in enumerate(rows)
             ]
             hdr, out = _shuffled(hdr, out, case.get("colseed", 0) + n)
@@ -198,7 +217,7 @@ def render(case, d):
         else:  # diann
             hdr = ["Run", "Modified.Sequence", "Precursor.Charge", "Protein.Ids", "Decoy", "PEP", "Ms1.Normalised"]
             out = [
-                ["r1", r["pep"], "2", r["prot"][0], "1" if r.get("decoy") else "0", "" if r["score"] == "nan" else _cell(r["score"]), "100.0"]
+                ["r1", r["pep"], "2", r["prot"][0], "1" if r.get("decoy") else "0", _cell(r["score"]), "100.0"]
                 for r in rows
             ]
             hdr, out = _shuffled(hdr, out, case.get("colseed", 0) + n)
@@ -225,8 +244,17 @@ def pandas_grid_ok():
         import pandas as pd
 
         lits = [repr(x) for x in PEP_GRID]
-        df = pd.read_csv(io.StringIO("PEP\n" + "\n".join(lits) + "\n"))
-        _PANDAS_OK = all(float(a) == b for a, b in zip(lits, df.PEP))
+        df = pd.read_csv(io.StringIO("A\tPEP\n" + "\n".join("x\t" + c for c in lits + ["inf", "-inf", "nan", ""]) + "\n"), sep="\t")
+        vals = list(df.PEP)
+        _PANDAS_OK = (
+            all(float(a) == b for a, b in zip(lits, vals))
+            and vals[-4] == float("inf") and vals[-3] == float("-inf") and vals[-2] != vals[-2] and vals[-1] != vals[-1]
+        )
+        # one cell that is no number: the column arrives as text, missing cells stay NaN
+        for j in JUNK:
+            d2 = pd.read_csv(io.StringIO("A\tPEP\n" + "\n".join("x\t" + c for c in ["0.1", j, "", "nan", "inf"]) + "\n"), sep="\t")
+            v2 = list(d2.PEP)
+            _PANDAS_OK = _PANDAS_OK and v2[0] == "0.1" and v2[1] == j and v2[2] != v2[2] and v2[3] != v2[3] and v2[4] == "inf"
     return _PANDAS_OK
 
 
@@ -259,16 +287,34 @@ def o_decoy_list(ps):
     return all("REV__" in p for p in ps) or all("rev_" in p for p in ps)
 
 
+def _no_number(sc):
+    """the PEP cell holds no number: empty, or text that is no float literal"""
+    return isinstance(sc, str) and (sc == "empty" or sc.startswith("junk:"))
+
+
 def expected(case):
-    """(ordered [(key, score Fraction-of-double, proteins)], info) per the property text and DESIGN §16"""
+    """(ordered [(key, score Fraction-of-double, proteins)], info) per the property text and DESIGN §16.
+    info["refused"]: the file set holds a PEP cell its parser cannot convert -- the tool refuses such a file
+    (ValueError of float(); DIA-NN: TypeError of np.isnan on a text column) instead of ignoring the row.  Which cells
+    those are is written down here from the format descriptions, not taken from the model:
+      Percolator, FragPipe, Sage   every row's cell is converted: an empty cell or text that is no number, in ANY row;
+      MaxQuant                     an empty cell is a missing value (NaN); text that is no number only counts in a row
+                                   that yields a PSM (known peptide, usable protein list);
+      DIA-NN (pandas)              empty = missing; one cell of text makes the column text, and then the first PSM
+                                   with a non-missing cell is refused."""
     st = method_score_type(case["method"])
     fmt, remap = fmt_of(st, case.get("mokapot", False))
+    razor = is_razor(st)
     maps = [dict((k, v) for k, v in m) for m in case["maps"]] if remap else [None]
     if len(maps) == 1:
         maps = maps * len(case["files"])
     best = {}
-    info = {"unknown": 0, "purged": 0, "emptied": 0, "nan": 0, "ties": 0, "scored": 0}
+    info = {"unknown": 0, "purged": 0, "emptied": 0, "nan": 0, "ties": 0, "scored": 0, "inf": 0, "refused": False,
+            "razor_cell_differs": 0}
     for rows, dm in zip(case["files"], maps):
+        if fmt in ("native", "mokapot", "fragpipe", "sage") and any(_no_number(r["score"]) for r in rows):
+            info["refused"] = True
+        text_column = fmt == "diann" and any(isinstance(r["score"], str) and r["score"].startswith("junk:") for r in rows)
         flank = bool(rows) and fmt in ("native", "mokapot") and rows[0]["pep"].startswith("-.") and rows[0]["pep"].endswith(".-")
         for r in rows:
             # peptide as the format spells it
@@ -282,7 +328,10 @@ def expected(case):
                 mp = r["pep"]
             key = r["bare"] if r.get("bare") is not None else o_strip(mp)
             # proteins of the file
-            if fmt in ("maxquant", "sage"):
+            if fmt == "maxquant" and razor:
+                fp = _razor_cell(r).split(";")
+                info["razor_cell_differs"] += int(fp != r["prot"][0].split(";"))
+            elif fmt in ("maxquant", "sage"):
                 fp = r["prot"][0].split(";")
             elif fmt == "native":
                 fp = list(r["prot"])
@@ -310,11 +359,30 @@ def expected(case):
             if not ps:
                 info["emptied"] += 1
                 continue
-            if r["score"] == "nan":
+            sc = r["score"]
+            if fmt == "maxquant" and isinstance(sc, str) and sc.startswith("junk:"):
+                info["refused"] = True
+            if text_column and sc not in ("nan", "empty"):
+                info["refused"] = True
+            if sc in ("nan", "empty") or _no_number(sc):
                 info["nan"] += 1
                 continue
-            raw = unrat(r["score"])
-            if fmt == "fragpipe":
+            if sc in ("inf", "-inf"):
+                # 1 - p: the sign flips; 10 ** -inf = 0; a PEP of +inf is never lower than anything
+                pos = (sc == "inf") != (fmt == "fragpipe")
+                if fmt == "sage" and not pos:
+                    raw = None
+                    q = Fraction(0)
+                elif pos:
+                    info["inf"] += 1
+                    continue
+                else:
+                    raise ValueError("harness: a PEP of -inf is outside this check")
+            else:
+                raw = unrat(sc)
+            if raw is None:
+                pass
+            elif fmt == "fragpipe":
                 q = 1 - raw + EPS16
             elif fmt == "sage":
                 q = Fraction(10) ** int(raw)
@@ -448,6 +516,16 @@ def sub_case(run, method, maps=None):
     inp = run["inputs"][family_of(method_score_type(method))]
     return {"method": method, "mokapot": inp.get("mokapot", False), "colseed": inp.get("colseed", 0),
             "maps": run_maps(run) if maps is None else maps, "files": inp["files"]}
+
+
+def refusal(e):
+    """the tool's refusal of a PEP cell it cannot convert: float()'s ValueError (csv formats), np.isnan's TypeError on
+    the text column pandas delivers (DIA-NN).  Anything else is left to the engine."""
+    if isinstance(e, ValueError) and str(e).startswith("could not convert string to float"):
+        return "bad_score_cell"
+    if isinstance(e, TypeError) and "ufunc 'isnan' not supported" in str(e):
+        return "bad_score_cell"
+    return None
 
 
 def _pil_json(res):
@@ -708,12 +786,17 @@ def run_shared(sh):
         try:
             paths = render(c, d)
             before = list(maps)
-            res = evidence.parse_evidence_files(paths, maps, cfg.score_type, True)
-            outs.append({
-                "pil": _pil_json(res),
-                "nmaps": [len(before), len(maps)],
-                "maps_same": len(before) == len(maps) and all(x is y for x, y in zip(before, maps)) and maps == pristine,
-            })
+            try:
+                got = {"pil": _pil_json(evidence.parse_evidence_files(paths, maps, cfg.score_type, True))}
+            except (ValueError, TypeError) as e:
+                if refusal(e) is None:
+                    raise
+                got = {"err": refusal(e)}
+            outs.append(dict(
+                got,
+                nmaps=[len(before), len(maps)],
+                maps_same=len(before) == len(maps) and all(x is y for x, y in zip(before, maps)) and maps == pristine,
+            ))
         finally:
             shutil.rmtree(d, ignore_errors=True)
     return {"shared": outs}
@@ -741,10 +824,15 @@ class P(Prop):
     thorough_cases = 40000
     chunk = 100
     rule = (
-        "file sets (1-3 files, 0-8 rows each) for every non-razor shipped method, score-type classes drawn uniformly "
+        "file sets (1-3 files, 0-8 rows each) for every shipped method (27 TOMLs, the 8 razor methods included: their MaxQuant "
+        "input carries a `Leading razor protein` cell that is one of the leading proteins in 55 % of the rows and another list "
+        "otherwise), score-description classes drawn uniformly "
         "(MaxQuant remap / multPEP / no_remap, Percolator native + mokapot header with and without remap, FragPipe, Sage, "
-        "DIA-NN tsv via pandas); 2-4 bare peptides per case spelled with 0-2 modification tokens (nested MaxQuant "
-        "parentheses included), PEPs from a 12-point grid so ties are common, NaN/empty PEP cells, protein lists mixing "
+        "DIA-NN tsv via pandas, each with and without razor where shipped); 2-4 bare peptides per case spelled with 0-2 modification tokens (nested MaxQuant "
+        "parentheses included), PEPs from a 12-point grid so ties are common, 10 % missing PEPs (literal nan; empty cell for "
+        "MaxQuant / DIA-NN), 2 % infinite PEPs, 7 % of the file sets with 1-2 cells that hold no number (empty cell for "
+        "Percolator / FragPipe / Sage, text such as `abc`, `0,01` for every format: the tool must refuse exactly those file "
+        "sets its parser trips over), protein lists mixing "
         "targets, REV__/rev_ decoys and contaminants, digest maps that omit some peptides, rows and columns shuffled; "
         "non-trivial = at least two scored PSMs compete for one stripped peptide and the result is non-empty. "
         "8 % of the cases call parse_evidence_files 2-3 times (methods of different input types, 1-4 files each, different "
@@ -763,7 +851,9 @@ class P(Prop):
         "csv.reader/float() re-read repr(float) cells exactly; pandas' C float parser agrees with float() on the 12 PEP literals (asserted per process)",
         "IEEE double `1 - p` is exact for p = (1024-k)/1024 and `x + 1e-16` is the correctly rounded exact sum",
         "np.power(10, x) is the correctly rounded 10**x for x in {0,-1,-2,-3,-4,-6,-7,-8} (asserted per process; -5 is NOT and is excluded)",
-        "the razor methods (8 shipped TOMLs) are outside this check: they die in parsers/psm.py before any row is yielded (fixes/C05-razor-premature-filter.diff)",
+        "pandas reads `inf`, `-inf`, `nan` and the empty cell of a numeric PEP column as floats, and delivers the whole column as text (missing cells stay NaN) once one cell is no number (asserted per process)",
+        "a PEP of -inf (cell `-inf` outside FragPipe / Sage, `inf` under FragPipe) is outside the model (PepInfo.pep is a rational) and not generated",
+        "file sets with a refused PEP cell are generated for the direct and shared-list calls of parse_evidence_files only, not for runs of the entry point",
     ]
     trusted_extra = ["pandas.read_csv / csv.reader reading of the generated files (validated only by the correspondence)"]
 
@@ -829,6 +919,15 @@ class P(Prop):
                     if row["pep"] == mod:
                         row["bare"] = None
                     row["prot"] = [";".join(prots) if rng.random() < 0.95 else ""]
+                    # `Leading razor protein` (read by razor methods instead): mostly one of the leading proteins, sometimes
+                    # another list altogether (the parser splits it on ";" all the same), rarely empty
+                    u = rng.random()
+                    if u < 0.55:
+                        row["prot"].append(rng.choice(prots))
+                    elif u < 0.95:
+                        row["prot"].append(";".join(self._proteins(rng)))
+                    else:
+                        row["prot"].append("")
                 elif fmt in ("native", "mokapot"):
                     fl_row = flank if rng.random() < 0.97 else not flank
                     row["pep"] = "-." + mod + ".-" if fl_row else mod
@@ -847,9 +946,14 @@ class P(Prop):
                     ids = [i if i not in ("", "NA", "nan", "null") else "T9" for i in ids]
                     row["prot"] = [";".join(ids)]
                     row["decoy"] = dec
-                # score
-                if rng.random() < 0.12:
-                    row["score"] = "nan"
+                # score: 10 % missing values (MaxQuant / DIA-NN: the empty cell or the literal nan; the other formats know
+                # the literal only -- their empty cell is refused, see _spoil), 2 % infinite PEPs that never enter the list
+                # (`inf`; under FragPipe's 1 - p it is `-inf`; Sage's 10 ** -inf is the PEP 0).  A PEP of -inf is not generated.
+                u = rng.random()
+                if u < 0.10:
+                    row["score"] = "empty" if fmt in ("maxquant", "diann") and rng.random() < 0.6 else "nan"
+                elif u < 0.12:
+                    row["score"] = "-inf" if fmt == "fragpipe" else rng.choice(["inf", "-inf"]) if fmt == "sage" else "inf"
                 elif fmt == "fragpipe":
                     row["score"] = rat(Fraction(1024 - rng.choice(FRAG_K), 1024))
                 elif fmt == "sage":
@@ -866,6 +970,17 @@ class P(Prop):
                         r["bare"] = None
             files.append(rows)
         return files
+
+    @staticmethod
+    def _spoil(rng, fmt, files):
+        """put one or two PEP cells that hold no number into a file set (in place): the empty cell where the format does
+        not read it as a missing value, text that float() rejects anywhere"""
+        slots = [(i, j) for i, rows in enumerate(files) for j in range(len(rows))]
+        for i, j in rng.sample(slots, min(len(slots), rng.choice([1, 1, 2]))):
+            if fmt not in ("maxquant", "diann") and rng.random() < 0.5:
+                files[i][j]["score"] = "empty"
+            else:
+                files[i][j]["score"] = "junk:" + rng.choice(JUNK)
 
     def _gen_maps(self, rng, pool, nmaps, cli=False):
         """digest maps over the peptide pool; cli=True: what a --peptide_protein_map file can express (every entry
@@ -891,7 +1006,7 @@ class P(Prop):
             return {"shared": self.gen_shared(rng)}
         if u < 0.08 + RUN_SHARE:
             return {"run": self.gen_run(rng, "inproc")}
-        classes = shipped_nonrazor()
+        classes = shipped_classes()
         st = rng.choice(list(classes))
         method = rng.choice(classes[st])
         mokapot = "Perc" in st and rng.random() < 0.5
@@ -899,6 +1014,8 @@ class P(Prop):
         bares = rng.sample(BARE, rng.choice([2, 2, 3, 4]))
         nfiles = rng.choice([1, 1, 2, 2, 3])
         files = self._gen_files(rng, fmt, bares, nfiles)
+        if rng.random() < 0.07:
+            self._spoil(rng, fmt, files)
         maps = []
         if remap:
             nmaps = 1 if (nfiles == 1 or rng.random() < 0.65) else nfiles
@@ -912,7 +1029,7 @@ class P(Prop):
     def _pick_methods(self, rng, n, want_two_remap):
         """n shipped non-razor methods of distinct score types; want_two_remap: a MaxQuant-input and a
         Percolator-input remapping method among them (they share the map list but read different files)"""
-        classes = shipped_nonrazor()
+        classes = shipped_classes()
         sts = list(classes)
         chosen = []
         if want_two_remap and n >= 2:
@@ -952,7 +1069,10 @@ class P(Prop):
             mokapot = "Perc" in st and rng.random() < 0.5
             fmt, _ = fmt_of(st, mokapot)
             nf = counts[family_of(st)] if rng.random() < 0.9 else rng.choice([1, 2, 3])
-            calls.append({"method": m, "mokapot": mokapot, "colseed": rng.randint(0, 999), "files": self._gen_files(rng, fmt, bares, nf)})
+            files = self._gen_files(rng, fmt, bares, nf)
+            if rng.random() < 0.04:
+                self._spoil(rng, fmt, files)
+            calls.append({"method": m, "mokapot": mokapot, "colseed": rng.randint(0, 999), "files": files})
         any_remap = any(fmt_of(method_score_type(m), False)[1] for m in ms)
         maps = []
         if any_remap or rng.random() < 0.3:
@@ -1006,7 +1126,7 @@ class P(Prop):
         ms = self._pick_methods(rng, nm, rng.random() < 0.75)
         remaps = [m for m in ms if fmt_of(method_score_type(m), False)[1]]
         if nm == 1 and not remaps and rng.random() < 0.8:
-            classes = shipped_nonrazor()
+            classes = shipped_classes()
             st = rng.choice([st for st in classes if fmt_of(st, False)[1]])
             ms = [rng.choice(classes[st])]
             remaps = list(ms)
@@ -1105,7 +1225,12 @@ class P(Prop):
         try:
             paths = render(case, d)
             maps = [dict((k, list(v)) for k, v in m) for m in case["maps"]] if case["maps"] else [None]
-            res = evidence.parse_evidence_files(paths, maps, cfg.score_type, True)
+            try:
+                res = evidence.parse_evidence_files(paths, maps, cfg.score_type, True)
+            except (ValueError, TypeError) as e:
+                if refusal(e) is None:
+                    raise
+                return {"err": refusal(e)}
             pil = _pil_json(res)
         finally:
             shutil.rmtree(d, ignore_errors=True)
@@ -1114,8 +1239,16 @@ class P(Prop):
     # -- the model ---------------------------------------------------------------------------
     @staticmethod
     def _ingest_req(c):
+        fmt, _ = fmt_of(method_score_type(c["method"]), bool(c.get("mokapot")))
+
+        def prot(r):  # MaxQuant: [Leading proteins, Leading razor protein] as the file holds them
+            return [r["prot"][0], _razor_cell(r)] if fmt == "maxquant" else r["prot"]
+
+        def score(sc):
+            return "junk" if isinstance(sc, str) and sc.startswith("junk:") else sc
+
         files = [
-            [{"pep": r["pep"], "mod": r.get("mod", ""), "score": r["score"], "prot": r["prot"], "decoy": bool(r.get("decoy"))} for r in rows]
+            [{"pep": r["pep"], "mod": r.get("mod", ""), "score": score(r["score"]), "prot": prot(r), "decoy": bool(r.get("decoy"))} for r in rows]
             for rows in c["files"]
         ]
         return {"op": "ingest", "method": c["method"], "mokapot": bool(c.get("mokapot")), "maps": c["maps"], "files": files}
@@ -1170,7 +1303,7 @@ class P(Prop):
 
     def impl_view(self, case, impl_out):
         if "shared" in case and isinstance(impl_out, dict) and "shared" in impl_out:
-            return {"shared": [o["pil"] for o in impl_out["shared"]]}
+            return {"shared": [o["pil"] if "pil" in o else {"err": o.get("err")} for o in impl_out["shared"]]}
         if "run" in case and isinstance(impl_out, dict) and "fwd" in impl_out:
             out = {}
             for name, ms in run_orders(case["run"]):
@@ -1193,10 +1326,24 @@ class P(Prop):
             return self.run_oracle(case["run"], impl_out)
         if isinstance(impl_out, dict) and "exc" in impl_out:
             return "ingestion raised %s: %s where a peptide list was expected" % (impl_out["exc"], impl_out.get("msg", ""))
+        want, info = expected(case)
+        why = self.refusal_verdict(info, impl_out)
+        if why is not None or info["refused"]:
+            return why
         if not isinstance(impl_out, dict) or "pil" not in impl_out:
             return "no peptide list returned: %r" % (impl_out,)
-        want, _ = expected(case)
         return self.judge(want, impl_out["pil"])
+
+    @staticmethod
+    def refusal_verdict(info, out):
+        """a file set with a PEP cell its parser cannot convert is refused (and only such a file set)"""
+        err = out.get("err") if isinstance(out, dict) else None
+        if info["refused"] and err != "bad_score_cell":
+            return "a PEP cell that is no number (and no missing value of the format) was not refused: %r" % (
+                {k: v for k, v in out.items() if k in ("pil", "err")} if isinstance(out, dict) else out,)
+        if not info["refused"] and err is not None:
+            return "ingestion refused the file set (%s) although every PEP cell is a number or a missing value of the format" % err
+        return None
 
     def judge(self, want, pil):
         """the property on one ingested peptide list: `want` = expected(case)[0]"""
@@ -1243,8 +1390,10 @@ class P(Prop):
         if not isinstance(out, dict) or "shared" not in out or len(out["shared"]) != len(sh["calls"]):
             return "no peptide list per ingestion returned: %r" % (out,)
         for i, (c, o) in enumerate(zip(sh["calls"], out["shared"])):
-            want, _ = expected(dict(c, maps=sh["maps"]))
-            why = self.judge(want, o["pil"])
+            want, info = expected(dict(c, maps=sh["maps"]))
+            why = self.refusal_verdict(info, o)
+            if why is None and not info["refused"]:
+                why = self.judge(want, o["pil"])
             if why:
                 return f"ingestion {i + 1} of {len(sh['calls'])} ({c['method']}, {len(c['files'])} files, same map list as the ingestions before it): {why}"
         for i, (c, o) in enumerate(zip(sh["calls"], out["shared"])):
@@ -1354,13 +1503,14 @@ class P(Prop):
             return False
         if "shared" in case:
             sh = case["shared"]
-            return len(sh["calls"]) > 1 and all(expected(dict(c, maps=sh["maps"]))[0] for c in sh["calls"])
+            exps = [expected(dict(c, maps=sh["maps"])) for c in sh["calls"]]
+            return len(sh["calls"]) > 1 and all(w and not i["refused"] for w, i in exps)
         if "run" in case:
             run = case["run"]
             maps = run_maps(run)
             return (len(run["methods"]) > 1 or len(maps) > 1) and all(expected(sub_case(run, m, maps))[0] for m in run["methods"])
         want, info = expected(case)
-        return bool(want) and info["scored"] > len(want)
+        return bool(want) and info["scored"] > len(want) and not info["refused"]
 
     @staticmethod
     def run_sensitivity(run):
@@ -1444,7 +1594,15 @@ class P(Prop):
         st = method_score_type(case["method"])
         fmt, remap = fmt_of(st, case.get("mokapot", False))
         want, info = expected(case)
-        f = ["format=%s" % fmt, "remap=%s" % remap, "scoreType=%s" % st, "files=%d" % len(case["files"])]
+        f = ["format=%s" % fmt, "remap=%s" % remap, "scoreType=%s" % st, "files=%d" % len(case["files"]), "razor=%s" % is_razor(st)]
+        if info["refused"]:
+            f.append("refused_bad_score_cell:" + fmt)
+        if info["inf"]:
+            f.append("has_inf_pep")
+        if info["razor_cell_differs"]:
+            f.append("razor_column_differs_from_leading_proteins")
+        cells = {("junk" if sc.startswith("junk:") else sc) for rows in case["files"] for r in rows for sc in [r["score"]] if isinstance(sc, str)}
+        f += ["cell=" + c for c in sorted(cells)]
         nrows = sum(len(r) for r in case["files"])
         f.append("rows=%s" % (nrows if nrows < 10 else "10+"))
         if len(case["maps"]) > 1:
